@@ -364,10 +364,14 @@ impl IntV {
     }
     pub fn short(&self) -> String {
         let t = if self.taint != 0 { format!("~t{}", self.taint) } else { String::new() };
+        let c = match &self.lin {
+            Some(l) if l.m > 1 && l.terms.is_empty() => format!("={}(mod {})", l.d, l.m),
+            _ => String::new(),
+        };
         if self.lo == self.hi {
             format!("{}{}", self.lo, t)
         } else {
-            format!("[{},{}]{}", self.lo, self.hi, t)
+            format!("[{},{}]{}{}", self.lo, self.hi, c, t)
         }
     }
 }
@@ -532,6 +536,8 @@ pub struct Absorb {
     pub taint: u8,
     /// taint bits carried by EVERY byte of the item
     pub taint_all: u8,
+    /// the item is the WHOLE of a root input slice (start 0, length = that input's length symbol)
+    pub whole: bool,
     pub lin: Option<String>, // for single bytes: rendered linear form (identity of ctx.len etc.)
 }
 
@@ -670,7 +676,7 @@ impl Val {
                 }
                 (Opaque::Xof { kind: k1, .. }, Opaque::Xof { kind: k2, .. }) if k1 == k2 => {
                     // different absorb histories merged (e.g. the three mu paths): keep kind only
-                    Val::Opq(Opaque::Xof { kind: k1.clone(), absorbed: Rc::new(vec![Absorb { src: "<joined>".into(), len_lo: 0, len_hi: i128::MAX, consts: None, taint: 3, taint_all: 0, lin: None }]), pos_lo: 0, pos_hi: i128::MAX, id: u32::MAX })
+                    Val::Opq(Opaque::Xof { kind: k1.clone(), absorbed: Rc::new(vec![Absorb { src: "<joined>".into(), len_lo: 0, len_hi: i128::MAX, consts: None, taint: 3, taint_all: 0, whole: false, lin: None }]), pos_lo: 0, pos_hi: i128::MAX, id: u32::MAX })
                 }
                 (Opaque::Str, Opaque::Str) => Val::Opq(Opaque::Str),
                 _ => Val::Top,
